@@ -539,7 +539,9 @@ def restart_solver(sysd, method):
                          sigma_bar_k_offset=e["off"]) for e in sysd["exps"]]
     H = qutip.Qobj(I.mat(sysd["H"]) / sc)
     opts = {"store_ados": True, "store_states": True, "progress_bar": "",
-            "method": method, "atol": 1e-10, "rtol": 1e-8}
+            "method": method}
+    if method != "diag":            # diag has no tolerances
+        opts.update({"atol": 1e-10, "rtol": 1e-8})
     return HEOMSolver(H, Bath(exps), sysd["depth"], odd_parity=sysd["odd"], options=opts)
 
 
